@@ -42,7 +42,9 @@ Bind(inp, m, name) ==
   LET K == DeclPaths(inp)
       scope == <<m.path>> \o m.uses
       tyImp == {i \in DOMAIN m.uses : m.uses[i] \in K /\ m.uses[i] # <<>> /\ Last(m.uses[i]) = name}
-      modIdx == {i \in DOMAIN scope : scope[i] \notin K /\ Join(scope[i], name) \in K}
+      (* the module itself (scope[1]) is always searched as a module; an import is a module import *)
+      (* when it does not name a type                                                               *)
+      modIdx == {i \in DOMAIN scope : (i = 1 \/ scope[i] \notin K) /\ Join(scope[i], name) \in K}
   IN IF tyImp # {} THEN m.uses[CHOOSE i \in tyImp : \A j \in tyImp : j <= i]
      ELSE IF name \in BuiltinNames THEN <<name>>
      ELSE IF modIdx # {} THEN Join(scope[CHOOSE i \in modIdx : \A j \in modIdx : i <= j], name)
